@@ -1,5 +1,260 @@
-import Banyan.Model.Util
-open Banyan
+import Banyan.Model.C13
+open Banyan Banyan.C13
 
-/- stub: model driver for C13 not built yet -/
-def main : IO Unit := runDriver fun _ => "bad-op"
+/-! Line-protocol driver for the C13 model (same protocol as hooks/banyand/trace/zz_verif_c13*.go). -/
+
+def b01 (b : Bool) : String := if b then "1" else "0"
+
+def splitOn' (s : String) (sep : String) : List String :=
+  if s == "-" || s == "" then [] else s.splitOn sep
+
+def kv (tok : String) : String × String :=
+  match tok.splitOn "=" with
+  | [k] => (k, "")
+  | k :: rest => (k, "=".intercalate rest)
+  | [] => ("", "")
+
+def int! (s : String) : Int := s.toInt?.getD 0
+def nat! (s : String) : Nat := s.toNat?.getD 0
+
+def sortStrings (l : List String) : List String := l.mergeSort fun a b => !(b < a)
+
+/-! ### guard scripts -/
+
+def filterOfTable (table : String) : String → Lookup := fun tid =>
+  let idx := match tid.toList with
+    | c :: _ => c.toNat - '0'.toNat
+    | [] => 0
+  let cs := table.toList
+  let c := match cs[idx]? with
+    | some c => c
+    | none => cs.getLast?.getD 'U'
+  match c with
+  | 'A' => .ok .absent
+  | 'M' => .ok .maybe
+  | 'U' => .ok .unknown
+  | 'E' => .err
+  | 'e' => .err
+  | _ => .ok .other
+
+def parseGParts (spec : String) : List GPart :=
+  (splitOn' spec ";").map fun ps =>
+    match ps.splitOn "," with
+    | [a, b, k, f] =>
+      { min := int! a, max := int! b, known := k == "1", filter := if f == "n" then none else some (filterOfTable f) }
+    | _ => { min := 0, max := 0, known := false, filter := none }
+
+def parseBlocks (spec : String) : List GBlock :=
+  (splitOn' spec "/").map fun bs =>
+    match bs.splitOn "," with
+    | [a, b, k] => { min := int! a, max := int! b, known := k == "1" }
+    | _ => { min := 0, max := 0, known := false }
+
+def actionOf (n : Nat) : SamplerAction :=
+  match n with
+  | 0 => .unknown | 1 => .keep | 2 => .drop | _ => .other
+
+def cancelOf (s : String) : Option Nat := if s == "-" then none else s.toNat?
+
+def charAt (s : String) (i : Nat) : Char := (s.toList[i]?).getD '0'
+
+structure GuardSetup where
+  cfg : GConfig := { grace := 0, maxProbes := 0, maxDrops := 0 }
+  cat : GCatalog := { pinned := false, parts := [], baseEpoch := 0, covMin := 0, covMax := 0, gap := 0,
+                      complete := false, covKnown := false, temporal := 0 }
+
+def applySetup (g : GuardSetup) (tok : String) : Option GuardSetup :=
+  let (k, v) := kv tok
+  match k with
+  | "G" => some { g with cfg := { g.cfg with grace := int! v } }
+  | "P" => some { g with cfg := { g.cfg with maxProbes := int! v } }
+  | "D" => some { g with cfg := { g.cfg with maxDrops := int! v } }
+  | "cat" => some { g with cat := { g.cat with complete := charAt v 0 == '1', pinned := charAt v 1 == '1', covKnown := charAt v 2 == '1' } }
+  | "cov" => match v.splitOn "," with
+    | [a, b] => some { g with cat := { g.cat with covMin := int! a, covMax := int! b } }
+    | _ => none
+  | "ts" => some { g with cat := { g.cat with temporal := nat! v } }
+  | "gap" => some { g with cat := { g.cat with gap := int! v } }
+  | "be" => some { g with cat := { g.cat with baseEpoch := nat! v } }
+  | "parts" => some { g with cat := { g.cat with parts := parseGParts v } }
+  | _ => none
+
+def guardSteps (g : GuardSetup) : List String → GState → List String → Option (List String)
+  | [], _, out => some out
+  | tok :: rest, st, out =>
+    match tok.splitOn ":" with
+    | ["R", tid, comp, blocks, act, cancel] =>
+      let tr : GTrace := { id := if tid == "-" then "" else tid, blocks := parseBlocks blocks, complete := comp == "1" }
+      let (d, st) := resolve g.cfg g.cat st tr (actionOf (nat! act)) (cancelOf cancel)
+      let cd := match d.confirmed with
+        | some c => s!"{c.id},{c.min},{c.max},{b01 c.known}"
+        | none => "-"
+      guardSteps g rest st (out ++ [s!"R {d.action.code} {d.reason.str} {d.candidates} {d.probes} {cd} {d.baseEpoch}"])
+    | ["V", delta, epoch, flags, cancel] =>
+      let req : RevalReq := { delta := parseGParts delta, epoch := nat! epoch, deltaComplete := charAt flags 0 == '1',
+                              owner := charAt flags 1 == '1', selected := charAt flags 2 == '1', fence := charAt flags 3 == '1' }
+      let (r, st) := revalidate g.cfg g.cat st req (cancelOf cancel)
+      guardSteps g rest st (out ++ [s!"V {b01 r.publish} {r.reason.str} {r.rechecked} {r.probes} {r.epoch}"])
+    | ["C"] =>
+      let st := closeGuard st
+      guardSteps g rest st (out ++ [s!"C {st.releases}"])
+    | _ => none
+
+partial def guardCase (toks : List String) (g : GuardSetup) : String :=
+  match toks with
+  | tok :: rest =>
+    match applySetup g tok with
+    | some g' => guardCase rest g'
+    | none =>
+      match guardSteps g toks { pinned := g.cat.pinned } [] with
+      | some out => " | ".intercalate out
+      | none => "bad-op"
+  | [] => ""
+
+/-! ### drop set / tracker -/
+
+def dropSetCase (toks : List String) : String :=
+  let rec go : List String → DropSet → String → String
+    | [], s, acc => s!"{acc} len={s.ids.length}"
+    | tok :: rest, s, acc =>
+      match tok.splitOn ":" with
+      | ["a", h] =>
+        match bytesOfHex h with
+        | some id =>
+          match s.add id with
+          | .ok s' => go rest s' (acc ++ "a")
+          | .panic msg => "PANIC " ++ msg
+        | none => "bad-op"
+      | ["k", h] =>
+        match bytesOfHex h with
+        | some data =>
+          let (k, s') := s.keepEncoded data
+          go rest s' (acc ++ b01 k)
+        | none => "bad-op"
+      | _ => "bad-op"
+  go toks {} ""
+
+def trackerCase (toks : List String) : String :=
+  match toks with
+  | b :: ids =>
+    let rec go : List String → Tracker → String → String
+      | [], t, acc =>
+        s!"{if acc.isEmpty then "-" else acc} len={t.exact.ids.length} max={t.maxIDs} full={b01 t.full}"
+      | h :: rest, t, acc =>
+        match bytesOfHex h with
+        | some id =>
+          let (ok, t) := t.canAccept
+          if ok then
+            match t.record id with
+            | some t' => go rest t' (acc ++ "1")
+            | none => "PANIC dropped trace IDs must be added in ascending order"
+          else go rest t (acc ++ "0")
+        | none => "bad-op"
+    go ids { budget := nat! b } ""
+  | [] => "bad-op"
+
+/-! ### chain -/
+
+def maskStr (m : List Bool) : String := if m.isEmpty then "-" else String.join (m.map b01)
+
+def parseLink (s : String) : Option LinkOutcome :=
+  match s.toList with
+  | 'm' :: bits => some (.mask (bits.map (· == '1')))
+  | 'l' :: k => some (.mask (List.replicate (nat! (String.ofList k)) false))
+  | [c] => if c == 'e' then some .err else if c == 'p' then some .panic else if c == 't' then some .block else none
+  | _ => none
+
+def chainCase (toks : List String) : String :=
+  match toks with
+  | [n, mode, cb, rounds, specs] =>
+    let n := nat! n
+    let links := (splitOn' specs ";").map parseLink
+    if mode == "eval" then
+      let (m, log) := evaluateChain n links
+      let byp := if log.isEmpty then "-" else ",".intercalate (log.map fun (i, r) => s!"{i}:{r}")
+      s!"{maskStr m} {byp}"
+    else
+      let active := links.filterMap id
+      let rec go : Nat → ChainState → List String → List String
+        | 0, _, out => out
+        | k + 1, st, out =>
+          let (m, e, st) := executeChain n (nat! cb) active st
+          go k st (out ++ [s!"{maskStr m}:{e}"])
+      " ".intercalate (go (nat! rounds) {} [])
+  | _ => "bad-op"
+
+/-! ### table -/
+
+def parseSpans (spec : String) : List Span :=
+  (splitOn' spec ",").filterMap fun s =>
+    match s.splitOn "." with
+    | [tid, sid, ts] => some { tid := tid, sid := sid, ts := int! ts }
+    | _ => none
+
+def rowOf (s : Span) : String := s!"{s.tid}/{s.sid}/{s.tid}.{s.sid}.{s.ts}"
+
+def dumpTable (t : Table) (univ : List String) : String :=
+  let parts := sortPartsById t.parts
+  let ps := parts.map fun p =>
+    s!"P{p.id}{if p.mem then "m" else "f"}[{p.min},{p.max},{p.count},g{p.gen}](" ++
+      ",".intercalate (sortStrings (p.spans.map rowOf)) ++ ") "
+  let qs := (sortStrings univ).map fun tid =>
+    tid ++ ":" ++ ",".intercalate (sortStrings ((queryById exactFilter t.parts minI64 maxI64 tid).map rowOf)) ++ " "
+  let xs := sortStrings (t.sidx.flatMap fun (id, es) => es.map fun e => s!"{e.key}/{e.tid}/{e.series}/p{id}")
+  "S{" ++ String.join ps ++ "} Q{" ++ String.join qs ++ "} X{" ++ ",".intercalate xs ++ "} B{}"
+
+def parseSel (s : String) : Sel :=
+  if s == "*" then .all else if s == "f*" then .files else if s == "m*" then .mems
+  else .idx ((splitOn' s "+").map fun x => nat! (String.ofList (x.toList.drop 1)))
+
+def parseTab (s : String) : SamplerTable :=
+  let entries := (splitOn' s ".").map fun e => let (k, v) := kv e; (k, charAt v 0)
+  fun tid => match entries.find? (·.1 == tid) with
+    | some (_, c) => c
+    | none => 'K'
+
+def parseLate (s : String) : Option Late :=
+  if s == "-" then none else
+  match s.splitOn "!" with
+  | [k, spans] => some { atDecide := k.startsWith "d", flush := k.endsWith "F", spans := parseSpans spans }
+  | _ => none
+
+def addUniverse (u : List String) (t : Table) : List String :=
+  (t.parts.flatMap fun p => p.spans.map (·.tid)).foldl (fun acc x => if acc.contains x then acc else acc ++ [x]) u
+
+def tableOps : List String → Table → List String → List String → Option (List String × Table × List String)
+  | [], t, u, out => some (out, t, u)
+  | op :: rest, t, u, out =>
+    match op.splitOn ":" with
+    | ["W", spans] =>
+      let t := t.write (parseSpans spans)
+      tableOps rest t (addUniverse u t) (out ++ [s!"W{t.curPartID}"])
+    | ["F"] => tableOps rest t.flush u (out ++ ["F"])
+    | ["O"] => tableOps rest t u (out ++ [dumpTable t u])
+    | "M" :: mode :: sel :: now :: bm :: dsb :: tab :: late :: fg =>
+      let req : MergeReq := { mode := charAt mode 0, now := int! now, eachBatch := bm == "e", dropSetBudget := nat! dsb,
+                              tab := parseTab tab, late := parseLate late,
+                              finalizeGrace := match fg with | [g] => int! g | _ => 0 }
+      let r := mergeOp exactFilter t (parseSel sel) req
+      tableOps rest r.table (addUniverse u r.table) (out ++ [r.text])
+    | _ => none
+
+def tableCase (toks : List String) : String :=
+  match toks with
+  | s :: e :: g :: ops =>
+    let t : Table := { segMin := int! s, segMax := int! e, grace := int! g }
+    match tableOps ops t [] [] with
+    | some (out, t, u) => " ".intercalate (out ++ [dumpTable t u])
+    | none => "bad-op"
+  | _ => "bad-op"
+
+def handle (line : String) : String :=
+  match words line with
+  | "gr" :: rest => guardCase rest {}
+  | "ds" :: rest => dropSetCase rest
+  | "dt" :: rest => trackerCase rest
+  | "ch" :: rest => chainCase rest
+  | "tb" :: rest => tableCase rest
+  | _ => "bad-op"
+
+def main : IO Unit := runDriver handle
